@@ -606,6 +606,75 @@ def issue_request(iss, helper=None):
     return ops, out
 
 
+def run_samereq(sc):
+    """several identify() calls on ONE request object: different helpers that share the cookie name (other secret / hash
+    algorithm / IP binding / timeout) and helpers whose clock moves between calls.  Every call is also answered by a fresh
+    helper on a fresh request with the same cookie and environ at the same time.  (reissue_time is None in these
+    histories, so the per-request reissue flags — legitimately shared between helpers — play no part.)"""
+    issued, reqs, dszs, infos, steps = [], [], [], [], []
+    for iss in sc.get('issues', []):
+        dszs.append(ALGS[iss['cfg']['alg']] * 2)
+        ops, out = issue_request(iss)
+        reqs.append((iss['cfg'], iss['ip'], iss['host'], iss['clock'], iss['clock'], ops, out))
+        r = out['results'][0]
+        if r['r'] == 'headers' and r['cookies']:
+            issued.append(r['cookies'][0]['value']); infos.append(r['cookies'][0])
+        else:
+            issued.append(None); infos.append(None)
+    name = sc['helpers'][0]['name']
+    header, value = build_header(name, sc.get('cookie'), issued, dszs, infos)
+    helpers = [helper_of(c) for c in sc['helpers']]
+    env = {'REMOTE_ADDR': sc['ip'], 'HTTP_HOST': sc['host'], 'SERVER_NAME': sc['host'].split(':')[0]}
+    if header is not None:
+        env['HTTP_COOKIE'] = header
+    request = Request.blank('/', environ=env)
+    try:
+        seen, cerr = request.cookies.get(name), None
+    except Exception as e:
+        seen, cerr = None, exc_name(e)
+    out = None
+    for call in sc['calls']:
+        cfg, helper = sc['helpers'][call['h']], helpers[call['h']]
+        old_time, old_hash = A.time_mod, A.hashlib
+        rec = HashRec()
+        A.time_mod, A.hashlib = Clock(call['now']), rec
+        try:
+            helper.now = call['now']
+            try:
+                res = canon_identity(helper.identify(request))
+            except Exception as e:
+                res = {'r': 'raised', 'err': exc_name(e)}
+        finally:
+            A.time_mod, A.hashlib = old_time, old_hash
+        out = {'results': [res], 'dins': [rec.log[0][1].hex() if rec.log else None], 'cookie_error': cerr, 'seen': seen, 'env_ok': True,
+               'response': [], 'st': {'reissued': hasattr(request, '_authtkt_reissued'), 'revoked': hasattr(request, '_authtkt_reissue_revoked')},
+               'hash': {inp.hex(): dig.hex() for alg, inp, dig in rec.log}}
+        ops = [{'op': 'identify'}]
+        fresh = run_request(cfg, sc['ip'], sc['host'], call['now'], call['now'], header, ops)
+        reqs.append((cfg, sc['ip'], sc['host'], call['now'], call['now'], ops, out))
+        steps.append({'cfg': cfg, 'call': call, 'header': header, 'long': out, 'fresh': fresh})
+    return {'issued': issued, 'reqs': reqs, 'header': header, 'value': value, 'final': out, 'steps': steps, 'multi': True, 'samereq': True}
+
+
+def oracle_samereq(sc, ex):
+    """identify is a function of the helper's parameters, the cookie, the address and `now` only: every call on the shared
+    request object gets the answer a fresh request gets from a fresh helper of that configuration at that time; and each
+    call on its own satisfies the single-request oracle"""
+    viol = []
+    for i, st in enumerate(ex['steps']):
+        a, b = st['long']['results'], impl_view(st['fresh'])['results']
+        if a != b or st['long']['cookie_error'] != st['fresh']['cookie_error']:
+            viol.append(('call %d (helper %d, now %d) on the shared request answers %s, a fresh request to a fresh helper of that configuration answers %s '
+                         '(the answer depends on earlier identify() calls on the request object)' % (
+                             i, st['call']['h'], st['call']['now'], json.dumps(a, ensure_ascii=True)[:300], json.dumps(b, ensure_ascii=True)[:300]), None))
+        sc_i = {'issues': sc.get('issues', []), 'cookie': sc.get('cookie'), 'cfg': st['cfg'], 'ip': sc['ip'], 'host': sc['host'],
+                'now': st['call']['now'], 'clock': st['call']['now'], 'ops': [{'op': 'identify'}]}
+        ex_i = {'issued': ex['issued'], 'final': st['long'], 'header': st['header']}
+        for d, f in oracle(sc_i, ex_i):
+            viol.append(('call %d: %s' % (i, d), f))
+    return viol
+
+
 def run_multi(sc):
     """a HISTORY of requests against long-lived helper instances (one per entry of sc['helpers']); every request is
     also answered by a fresh helper of the same configuration, for the history-independence clause of the oracle"""
@@ -871,6 +940,8 @@ def last_view(sc):
     if 'ticket' in sc:
         t = sc['ticket']
         return {'alg': t['alg'], 'include_ip': True}, t['pip'], [{'op': 'parse_ticket'}]
+    if 'calls' in sc:
+        return sc['helpers'][sc['calls'][-1]['h']], sc['ip'], [{'op': 'identify'}] * len(sc['calls'])
     if 'requests' in sc:
         rq = sc['requests'][-1]
         return sc['helpers'][rq['h']], rq['ip'], rq['ops']
@@ -882,6 +953,8 @@ def nontrivial(sc, ex):
         from urllib.parse import quote
         t = sc['ticket']
         return quote(t['userid']) != t['userid'] or '%' in t['userid'] or bool(t['tokens']) or bool(t['user_data'])
+    if 'calls' in sc:
+        return len(sc['calls']) >= 2
     if 'requests' in sc:
         return len(sc['requests']) >= 2
     out = ex['final']
@@ -1090,10 +1163,57 @@ def small_scope_aliases():
     return out
 
 
+def samereq_variants(cfgA):
+    """helpers that share the cookie name with cfgA and differ in one verification parameter"""
+    return [dict(cfgA, secret=cfgA['secret'] + 'x'), dict(cfgA, alg='sha1' if cfgA['alg'] != 'sha1' else 'sha256'),
+            dict(cfgA, include_ip=not cfgA['include_ip']), dict(cfgA, timeout=3)]
+
+
+def gen_samereq(rng):
+    cfgA = gen_cfg(rng)
+    cfgA['reissue'] = None
+    cfgA['timeout'] = rng.choice([None, 10, 100, 0])
+    vs = samereq_variants(cfgA)
+    rng.shuffle(vs)
+    helpers = [cfgA] + vs[:rng.choice([1, 1, 2, 3])]
+    ipA = rng.choice([i for i in IPS4 + IPS6 if i != '0.0.0.0'])
+    host = rng.choice(HOSTS)
+    t0 = rng.choice([c for c in CLOCKS if c < 2 ** 32 - 300])
+    T = cfgA['timeout'] or 50
+    issue = {'cfg': cfgA, 'ip': ipA, 'host': host, 'clock': t0, 'uid': gen_uid(rng), 'tokens': gen_tokens(rng), 'max_age': None}
+    calls = []
+    for _ in range(rng.choice([2, 2, 3, 3, 4, 5])):
+        calls.append({'h': rng.choice([0, 0] + list(range(len(helpers)))), 'now': t0 + rng.choice([0, 1, 3, 4, T, T, T + 1, T + 1, T + 50])})
+    ck = {'base': 0, 'edits': [], 'quote': rng.choice(['webob', 'verbatim', 'dq', 'octal'])}
+    if rng.random() < 0.15:
+        ck['edits'] = [['sub', rng.randrange(120), rng.choice(EDIT_CHARS)]]
+    return {'kind': 'samereq', 'issues': [issue], 'helpers': helpers, 'cookie': ck, 'ip': ipA, 'host': host, 'calls': calls}
+
+
+def small_scope_samereq():
+    """every sequence of 1..3 identify() calls on one request object over 8 (helper, time) pairs, two base configurations"""
+    import itertools
+    out = []
+    base = {'secret': 'secret', 'name': 'auth_tkt', 'secure': False, 'include_ip': False, 'timeout': 10, 'reissue': None,
+            'max_age': None, 'http_only': False, 'path': '/', 'wild': True, 'parent': False, 'alg': 'md5', 'domain': None, 'samesite': 'Lax'}
+    for over, ip in (({}, '1.2.3.4'), ({'include_ip': True, 'alg': 'sha256'}, '::1')):
+        cfgA = dict(base); cfgA.update(over)
+        helpers = [cfgA] + samereq_variants(cfgA)
+        issue = {'cfg': cfgA, 'ip': ip, 'host': 'example.com', 'clock': 1000, 'uid': {'t': 'str', 'v': 'alice'}, 'tokens': ['a'], 'max_age': None}
+        alphabet = [(0, 1001), (0, 1010), (0, 1011), (1, 1001), (2, 1001), (3, 1001), (4, 1002), (4, 1004)]
+        for n in (1, 2, 3):
+            for seq in itertools.product(alphabet, repeat=n):
+                out.append({'kind': 'samereq-small-scope', 'issues': [issue], 'helpers': helpers, 'cookie': {'base': 0, 'edits': [], 'quote': 'webob'},
+                            'ip': ip, 'host': 'example.com', 'calls': [{'h': h, 'now': t} for h, t in seq]})
+    return out
+
+
 def gen_scenario(rng, kind=None):
     kind = kind or rng.choice(['valid', 'valid', 'valid', 'boundary', 'boundary', 'edit', 'edit', 'edit', 'splice', 'tsfield',
                                'other_helper', 'arbitrary', 'mint', 'history', 'history', 'nocookie', 'badip', 'quoting',
-                               'shift', 'multi', 'multi', 'multi', 'ticket', 'ticket', 'ticket', 'rawid', 'rawid', 'alias', 'alias'])
+                               'shift', 'multi', 'multi', 'multi', 'ticket', 'ticket', 'ticket', 'rawid', 'rawid', 'alias', 'alias', 'samereq', 'samereq'])
+    if kind == 'samereq':
+        return gen_samereq(rng)
     if kind == 'multi':
         return gen_multi(rng)
     if kind == 'ticket':
@@ -1246,6 +1366,9 @@ def evaluate(sc):
     if 'ticket' in sc:
         ex = run_ticket(sc)
         return ex, oracle_ticket(sc, ex)
+    if 'calls' in sc:
+        ex = run_samereq(sc)
+        return ex, oracle_samereq(sc, ex)
     if 'requests' in sc:
         ex = run_multi(sc)
         return ex, oracle_multi(sc, ex)
@@ -1260,8 +1383,12 @@ def violation_record(sc, ex, vs):
          'expected': 'C09: issued tickets are accepted unchanged until they expire; anything else never raises and yields nothing or the original identity; reissue/forget/attributes as configured',
          'detail': '; '.join(d for d, _ in vs[:4])}
     if ex.get('multi'):
-        v['impl']['history'] = [{'long_lived': answer(st['long'])['results'], 'fresh': answer(st['fresh'])['results'], 'header': st['header'],
-                                 'ip': st['rq']['ip'], 'now': st['rq']['now']} for st in ex['steps']]
+        if ex.get('samereq'):
+            v['impl']['history'] = [{'shared_request': st['long']['results'], 'fresh': impl_view(st['fresh'])['results'], 'header': st['header'],
+                                     'helper': st['call']['h'], 'now': st['call']['now']} for st in ex['steps']]
+        else:
+            v['impl']['history'] = [{'long_lived': answer(st['long'])['results'], 'fresh': answer(st['fresh'])['results'], 'header': st['header'],
+                                     'ip': st['rq']['ip'], 'now': st['rq']['now']} for st in ex['steps']]
     fids = {f for _, f in vs}
     if len(fids) == 1 and fid:
         v['finding'] = fid
@@ -1306,6 +1433,8 @@ def process(ctx, scenarios, dist, use_model=True):
         vfutil.bump(dist['ops_per_request'], len(lops))
         if 'requests' in sc:
             vfutil.bump(dist['requests_per_history'], len(sc['requests']))
+        if 'calls' in sc:
+            vfutil.bump(dist['calls_on_one_request'], len(sc['calls']))
         for r in fin['results']:
             vfutil.bump(dist['results'], r['r'] if r['r'] != 'raised' else 'raised:' + r['err'])
         if fin.get('cookie_error'):
@@ -1354,7 +1483,7 @@ def process(ctx, scenarios, dist, use_model=True):
 
 
 def new_dist():
-    return {'kinds': {}, 'ops_per_request': {}, 'results': {}, 'alg': {}, 'ip': {}, 'known_findings': {}, 'requests_per_history': {}}
+    return {'kinds': {}, 'ops_per_request': {}, 'results': {}, 'alg': {}, 'ip': {}, 'known_findings': {}, 'requests_per_history': {}, 'calls_on_one_request': {}}
 
 
 def exhaustive_edits(rng, budget):
@@ -1403,6 +1532,11 @@ def run(ctx):
     scenarios += tks
     als = small_scope_aliases()
     scenarios += als
+    smr = small_scope_samereq()
+    if ctx.tier == 'quick':
+        rng.shuffle(smr)
+        smr = smr[:400]
+    scenarios += smr
     res = {'evals': 0, 'agree': 0, 'mism': [], 'viol': [], 'keys': set()}
     nontriv_total = 0
     CH = 4000
@@ -1431,7 +1565,8 @@ def run(ctx):
                 'every request of a scenario (issuing ones too) is one driver line; first-hash inputs are compared byte for byte',
                 '%d small-scope histories (all sequences of <= 3 requests over %d request kinds x 7 configurations (3 with address-alias pairs) on ONE long-lived helper; %s) plus the random multi-request histories: every request must get the answer of a fresh helper' % (len(hist), len(REQ_KINDS), 'all' if ctx.tier == 'thorough' else 'a sample'),
                 '%d ticket-level small-scope cases (20 awkward raw userids x 6 token lists x 6 user data texts: AuthTicket.cookie_value -> parse_ticket must return exactly what was signed) plus the random ticket-level / raw-id-helper streams' % len(tks),
-                '%d address-alias cases (every pair of distinct spellings of one host x both directions x 2 algorithms: the ticket issued for A must verify from A and not from B unless both are dotted with equal octet values)' % len(als)],
+                '%d address-alias cases (every pair of distinct spellings of one host x both directions x 2 algorithms: the ticket issued for A must verify from A and not from B unless both are dotted with equal octet values)' % len(als),
+                '%d same-request histories (all sequences of <= 3 identify() calls on ONE request object over 8 (helper, time) pairs x 2 configurations; %s) plus the random ones: every call must answer what a fresh request gets from a fresh helper of that configuration at that time' % (len(smr), 'all' if ctx.tier == 'thorough' else 'a sample')],
             'assumptions': ['hash functions are uninterpreted in the model: hashlib answers through a recorded table',
                             'the Unicode database (whitespace / decimal digit of non-ASCII characters) is a table from unicodedata',
                             'WebOb parses the Cookie header and serialises Set-Cookie: exercised, not modelled',
@@ -1448,6 +1583,7 @@ def search(ctx):
     rng = ctx.rng
     dist = new_dist()
     scs = [c for _, c in ctx.corpus()]
+    scs += small_scope_samereq()
     scs += small_scope_aliases()
     scs += small_scope_tickets()
     scs += small_scope_histories()
